@@ -146,3 +146,25 @@ PROPS["C14"] = Prop(
     nontrivial=lambda s, impl: " n=0 " not in s and "prec=0 " not in s,
 )
 PARAMS["C14"] = {"rule": "N in 0..=17, 31..=33, 1023, 1024, 1025, 2047..=2049, 3000, 4096 (covering the three strategies and their thresholds +-1) x every precision 0..=2N+2 for N <= 33, boundary and seeded precisions above x both cases x 2-3 byte patterns (never all-zero), with the faster-hex feature off and on. Non-trivial = N > 0 and precision != 0."}
+
+HEAP_TRUST = "modelled, not verified: alloc's Vec/Box allocation contract (with_capacity, into_boxed_slice, Vec::from(Box<[T]>), Box::into_raw/from_raw, Box drop releasing a block iff the type has non-zero size), handle_alloc_error; the recording global allocator and the child-process observation of allocation failure are harness code"
+
+PROPS["C16"] = Prop(
+    "C16", ["GA.Props.C16"],
+    [Engine("heap", scen.heap_c16, sig=lambda l: l.split()[0] + "/" + next((t for t in l.split() if t.startswith("fault=")), "fault=none").split(":")[0])],
+    trusted=[KERNEL, TRANSLATOR, HARNESS, HEAP_TRUST],
+    assumptions=["boxed generate / default_boxed is the only place the crate calls the allocator directly; all other alloc-feature operations go through Vec/Box and are checked by the recording allocator's discipline oracle",
+                 "the panic runtime's own exception object is allocated and released by std and is not attributed to the crate"],
+    nontrivial=lambda s, impl: "fault=none" not in s or " n=0 " in s,
+)
+PARAMS["C16"] = {"rule": "boxed generate / default_boxed x N in {0,1,2,3,4,5,7,8,16,17,33,256,1024} x 6 element kinds (sizes 0,3,4,8; drop-tracked, zero-sized drop-counted) x {no fault, a panic at every generator call, allocation failure (child process)}; Box map / zip with a panic at every call; every heap conversion x source lengths {0,N-1,N,N+1}. Recorded: size/align of every request, zero-size requests, releases not matching a live block and layout, blocks live at the end. Non-trivial = a fault was injected or N = 0."}
+
+PROPS["C15"] = Prop(
+    "C15", ["GA.Props.C15"],
+    [Engine("heap", scen.heap_c15, sig=lambda l: l.split()[0])],
+    trusted=[KERNEL, TRANSLATOR, HARNESS, HEAP_TRUST,
+             "what rustc does with stack temporaries in general is not modelled: the multi-MiB constructors on a 256 KiB-stack thread are the evidence for that clause"],
+    assumptions=["same_block is reported for the conversions documented as O(1) (into_boxed_slice, into_vec, try_from_boxed_slice, try_from_vec with len == capacity): same address and zero allocator calls"],
+    nontrivial=lambda s, impl: " n=0 " not in s,
+)
+PARAMS["C15"] = {"rule": "try_from_vec (with and without spare capacity), try_from_boxed_slice, TryFrom<Vec>/TryFrom<Box<[T]>>, boxed collect x N in the heap lattice x source lengths {0,N-1,N,N+1}; into_boxed_slice, into_vec, From<GenericArray> for Box<[T]>/Vec, Box IntoIterator; 6 element kinds; contents, Ok/Err, block address before/after, allocator call count, per-element drops; 4 MiB default_boxed / boxed generate / box_arr! / boxed collect / into_vec on a 256 KiB stack (child process)."}
